@@ -252,18 +252,18 @@ TopRows(q, db) ==
              IN  {[lbls |-> r.lbls, b |-> r.b, v |-> r.v, opt |-> nnotworse(r) > q.mq.topk] :
                     r \in {rr \in A : nbetter(rr) < q.mq.topk}}
 
-(* the output points: instant T reports the bucket containing T.  When that bucket is empty and T is the right  *)
-(* edge of a non-empty bucket the point may carry that bucket's value (the range (T-range, T] convention): opt.  *)
+(* the output points.  The property fixes the VALUES (whole range buckets of matching entries) and the window,   *)
+(* not which instant reports which bucket; the definition therefore only demands                                *)
+(*   - a point at instant T carries the value of a range bucket b near T:  b - step < T <= b + range            *)
+(*     (the bucket containing T, the bucket whose right edge is T = the (T-range, T] convention, or the bucket  *)
+(*     that starts within the step after T),                                                                    *)
+(*   - when the bucket that CONTAINS T has a row, there is a point at T (opt = FALSE marks that record).         *)
 Instants(q) == {q.from + i * q.mq.step : i \in 0..((q.to - q.from) \div q.mq.step)}
+Near(q, b, t) == b - q.mq.step < t /\ t <= b + q.mq.range
 EvalMetric(q, db) ==
     LET T == TopRows(q, db)
         series == {r.lbls : r \in T}
-        row(l, b) == {r \in T : r.lbls = l /\ r.b = b}
-        pts(l) == {[t |-> t, v |-> (CHOOSE r \in row(l, Bucket(t, q.mq.range)) : TRUE).v,
-                    opt |-> (CHOOSE r \in row(l, Bucket(t, q.mq.range)) : TRUE).opt] :
-                        t \in {tt \in Instants(q) : row(l, Bucket(tt, q.mq.range)) # {}}}
-                  \cup {[t |-> t, v |-> (CHOOSE r \in row(l, t - q.mq.range) : TRUE).v, opt |-> TRUE] :
-                        t \in {tt \in Instants(q) : /\ row(l, Bucket(tt, q.mq.range)) = {} /\ tt % q.mq.range = 0
-                                                    /\ row(l, tt - q.mq.range) # {}}}
-    IN  {s \in {[lbls |-> l, pts |-> pts(l)] : l \in series} : s.pts # {}}
+        near(l) == {[t |-> t, v |-> r.v, opt |-> ~(r.b = Bucket(t, q.mq.range) /\ ~r.opt)] :
+                      <<t, r>> \in {<<tt, rr>> \in Instants(q) \X {x \in T : x.lbls = l} : Near(q, rr.b, tt)}}
+    IN  {s \in {[lbls |-> l, pts |-> near(l)] : l \in series} : s.pts # {}}
 =============================================================================
